@@ -1,7 +1,7 @@
 (* C10 — metadata collections behave as an insertion-ordered map with a one-way freeze.
    The model (Md.v) is the list algorithms of metadata.c; these are the laws of an insertion-ordered
    map that they satisfy.  Statements only; proofs in MdFacts.v. *)
-From Sbdf Require Import Imp ImpCall Gen.Prog ImpBase ImpFactsCells ImpFactsMd.
+From Sbdf Require Import Imp ImpCall Gen.Prog ImpBase ImpFactsCells ImpFactsMd ImpFactsDestroy ImpFactsMdRemove.
 From Coq Require Import List.
 From Sbdf Require Import Md Tm MdFacts VaFacts.
 
@@ -140,3 +140,48 @@ Proof.
   exists 1%nat, (VCell 2 0), 0, VNull, VNull. split; [reflexivity|]. split; [reflexivity|]. split; [split; [cbn; lia|reflexivity]|].
   exists 2%nat, (VInt 0), 3, VNull, VNull. split; [reflexivity|]. split; [reflexivity|]. split; [split; [cbn; lia|reflexivity]|reflexivity].
 Qed.
+
+(* ---- sbdf_md_remove from the source (ImpFactsMdRemove.v).  md_chain h m p es: the entries es (block, name,
+   name pointer, value, default, next cell) are linked from p in that order.
+   - frozen collection: METADATA_READONLY, nothing written;
+   - name absent (no entry carries it): OK, nothing written - so removal is idempotent;
+   - name present: the FIRST entry e of that name is unlinked by ONE cell store - the next cell of its
+     predecessor, or the first cell of the head when it leads the list, takes over e's successor (h1) -
+     its value and default are destroyed (h2, h3: sbdf_obj_destroy's effect, or nothing for a null
+     default), its name is handed to sbdf_str_destroy and its block is released: the final heap is
+     kill (eb e) h3.  Entries in front of and behind e keep their blocks, names, values and order
+     (C10_source_unlink_frame: a cell store and a release leave every other block as it was). *)
+Theorem C10_source_md_remove_found : forall k sx m q name h hb first modif done e rest h1 h2 h3,
+  nth_error h hb = Some (Some [first; VInt modif]) -> modif <> 0 -> cstr_at m q name ->
+  md_chain h m (as_ptr first) (done ++ e :: rest) -> Forall (fun d => enm d <> name) done -> enm e = name ->
+  4 <= enp e <= zlen m -> storable (as_ptr (enx e)) = true ->
+  cell_set h (last (map eb done) hb) 0 (as_ptr (enx e)) = Some h1 ->
+  nth_error h1 (eb e) = Some (Some [enx e; VPtr RIn (enp e); evv e; edv e]) ->
+  destroys_opt m h1 (evv e) h2 -> nth_error h2 (eb e) = Some (Some [enx e; VPtr RIn (enp e); evv e; edv e]) ->
+  destroys_opt m h2 (edv e) h3 -> nth_error h3 (eb e) = Some (Some [enx e; VPtr RIn (enp e); evv e; edv e]) ->
+  exists f0, forall f, (f0 <= f)%nat -> exists fin,
+    callC prog_env f prog_sbdf_md_remove [VPtr RIn q; VCell hb 0] m k sx h = OReturn (VInt SBDF_OK) fin /\
+    inb fin = m /\ Imp.lookup cells_var (vars fin) = Some (VHeap (kill (eb e) h3)).
+Proof. exact md_remove_found_source. Qed.
+Print Assumptions C10_source_md_remove_found.
+
+Theorem C10_source_md_remove_absent : forall k sx m q name h hb first modif es,
+  nth_error h hb = Some (Some [first; VInt modif]) -> modif <> 0 -> cstr_at m q name ->
+  md_chain h m (as_ptr first) es -> Forall (fun d => enm d <> name) es ->
+  exists f0, forall f, (f0 <= f)%nat -> exists fin,
+    callC prog_env f prog_sbdf_md_remove [VPtr RIn q; VCell hb 0] m k sx h = OReturn (VInt SBDF_OK) fin /\
+    inb fin = m /\ Imp.lookup cells_var (vars fin) = Some (VHeap h).
+Proof. exact md_remove_absent_source. Qed.
+Print Assumptions C10_source_md_remove_absent.
+
+Theorem C10_source_md_remove_frozen : forall k sx m q h hb first,
+  nth_error h hb = Some (Some [first; VInt 0]) ->
+  exists f0, forall f, (f0 <= f)%nat -> exists fin,
+    callC prog_env f prog_sbdf_md_remove [VPtr RIn q; VCell hb 0] m k sx h = OReturn (VInt SBDF_ERROR_METADATA_READONLY) fin /\
+    inb fin = m /\ Imp.lookup cells_var (vars fin) = Some (VHeap h).
+Proof. exact md_remove_readonly_source. Qed.
+Print Assumptions C10_source_md_remove_frozen.
+
+Theorem C10_source_unlink_frame : forall h b i v h' c, cell_set h b i v = Some h' -> b <> c -> nth_error h' c = nth_error h c.
+Proof. exact cell_set_other. Qed.
+Print Assumptions C10_source_unlink_frame.
